@@ -33,6 +33,9 @@ type c04Reader struct {
 	afterEnd int // reads issued after the stream had ended
 	zeroLenP int // reads with len(p)==0
 	boundaryInLine bool
+	errVal    error // the injected error (a custom error, or io.ErrUnexpectedEOF as a truncated gzip stream gives)
+	transient bool  // the error is returned once; later reads would hand out the rest of the data
+	endPos    int   // bytes handed out when the stream ended (EOF or error)
 }
 
 func (r *c04Reader) limit() int {
@@ -45,8 +48,15 @@ func (r *c04Reader) limit() int {
 func (r *c04Reader) Read(p []byte) (int, error) {
 	if r.ended {
 		r.afterEnd++
-		if r.errGiven {
-			return 0, errC04Injected
+		if r.errGiven && r.transient && r.pos < len(r.data) {
+			// a reader whose error is not sticky: a scanner that keeps reading after the error gets more bytes
+			n := copy(p, r.data[r.pos:])
+			r.pos += n
+			r.script = append(r.script, strconv.Itoa(n)+",nil(after-error)")
+			return n, nil
+		}
+		if r.errGiven && !r.transient {
+			return 0, r.errVal
 		}
 		return 0, io.EOF
 	}
@@ -67,8 +77,9 @@ func (r *c04Reader) Read(p []byte) (int, error) {
 		r.ended = true
 		if willErr {
 			r.errGiven = true
+			r.endPos = r.pos
 			r.script = append(r.script, "0,ERR")
-			return 0, errC04Injected
+			return 0, r.errVal
 		}
 		r.script = append(r.script, "0,EOF")
 		return 0, io.EOF
@@ -96,8 +107,9 @@ func (r *c04Reader) Read(p []byte) (int, error) {
 	if r.pos == lim {
 		if willErr && r.errData {
 			r.ended, r.errGiven = true, true
+			r.endPos = r.pos
 			r.script = append(r.script, strconv.Itoa(k)+",ERR")
-			return k, errC04Injected
+			return k, r.errVal
 		}
 		if !willErr && r.eofData {
 			r.ended = true
@@ -157,12 +169,16 @@ type c04Case struct {
 func c04One(rc *RunCtx) (c04Case, uint64, bool) {
 	t := rc.Tape
 	data := c04GenData(t)
-	rd := &c04Reader{t: t, data: data, errAt: -1}
+	rd := &c04Reader{t: t, data: data, errAt: -1, errVal: errC04Injected}
 	rd.stalls = t.FBool(1, 3)
 	rd.eofData = t.FBool(1, 3)
 	if rc.Faults && t.FBool(4, 5) {
 		rd.errAt = t.F(len(data) + 1)
 		rd.errData = t.FBool(1, 2)
+		rd.transient = t.FBool(1, 3)
+		if t.FBool(1, 4) {
+			rd.errVal = io.ErrUnexpectedEOF
+		}
 	}
 	var sc readahead.Scanner
 	cs := c04Case{ErrAt: rd.errAt}
@@ -211,6 +227,10 @@ func c04One(rc *RunCtx) (c04Case, uint64, bool) {
 		}
 	}
 	delivered := data[:rd.pos]
+	if rd.errGiven {
+		// a non-EOF error ends the stream: nothing handed out after it may be delivered
+		delivered = data[:rd.endPos]
+	}
 	want := refSplit(delivered)
 	cs.Data = strconv.QuoteToASCII(string(data))
 	cs.Script = fmt.Sprint(rd.script)
@@ -245,7 +265,7 @@ func c04One(rc *RunCtx) (c04Case, uint64, bool) {
 	if rd.errGiven {
 		if onErr != 1 {
 			rc.Violate("onerror-count", "a non-EOF error was returned by the reader once; OnError fired %d times\n %s", onErr, desc())
-		} else if onErrVal != errC04Injected {
+		} else if onErrVal != rd.errVal {
 			rc.Violate("onerror-value", "OnError received %v\n %s", onErrVal, desc())
 		}
 	} else if onErr != 0 {
